@@ -198,7 +198,10 @@ def run_case(spec):
         tf[e] = np.zeros((p.N, p.N), complex)
         if p.exact:
             tx[e] = gr_zeros((p.N, p.N))
-        q = matprob.from_terms(p, tf, tx, p.n_par + 1, max_total=min(spec["max_total"], 3 if p.n_par == 1 else 2), container="dict")
+        # (list container when only first-order terms are present: the vanishing entry then sits inside the list)
+        q = matprob.from_terms(p, tf, tx, p.n_par + 1, max_total=min(spec["max_total"], 3 if p.n_par == 1 else 2),
+                               container=str(rng.choice(["list", "list", "dict"])))
+        counters[f"vanish_container_{q.spec['container']}"] += 1
         got = _run(q)
         for name, A, B in zip(names, base, got):
             for k in q.orders:
